@@ -635,14 +635,22 @@ func (r *renderer) injSig(f *file, inj *Injector, names bool) (params string, re
 	if inj.RawSig != "" {
 		return strings.Join(ps, ", "), inj.RawSig
 	}
-	res := r.typeExpr(f, inj.Out)
+	rn := func(i int) string {
+		if names && i < len(inj.ResultNames) {
+			return inj.ResultNames[i] + " "
+		}
+		return ""
+	}
+	res := rn(0) + r.typeExpr(f, inj.Out)
+	k := 1
 	if inj.Cleanup {
-		res += ", func()"
+		res += ", " + rn(k) + "func()"
+		k++
 	}
 	if inj.Err {
-		res += ", error"
+		res += ", " + rn(k) + "error"
 	}
-	if inj.Cleanup || inj.Err {
+	if inj.Cleanup || inj.Err || (names && len(inj.ResultNames) > 0) {
 		res = "(" + res + ")"
 	}
 	return strings.Join(ps, ", "), res
